@@ -304,6 +304,9 @@ func bodyDial(r *sim.Run) {
 			r.Logf("t=%v advance %v", r.Now(), d)
 		}
 	}
+	if len(r.Faults) > 0 {
+		r.Nontriv = true
+	}
 }
 
 // noWellKnown is the world as seen when no well-known document can be fetched.
@@ -423,6 +426,25 @@ func (w *dialWorld) opGet(name string) {
 	r.State(fmt.Sprintf("get step=%s ok=%v policy=%v cache=%v", want.Step, err == nil, w.policy, w.cache != nil))
 	if err != nil {
 		r.Probe("get_failed")
+		// two rounds of dials but a single well-known fetch: the retry after
+		// "all targets failed" re-used the first resolution (observation only)
+		nwk, rounds := 0, map[string]int{}
+		for _, a := range as {
+			if a.tag == "wk" {
+				nwk++
+			} else if a.op == w.nop {
+				rounds[a.via+" "+a.ip.String()]++
+			}
+		}
+		twice := false
+		for _, c := range rounds {
+			if c >= 2 {
+				twice = true
+			}
+		}
+		if twice && nwk == 1 && want.WellKnownFor != "" && w.cache == nil {
+			r.Probe("retry_after_failure_reused_first_resolution")
+		}
 	} else {
 		r.Probe("get_ok")
 	}
